@@ -36,4 +36,18 @@ Colour cast_unchecked(const QDomElement &el)
     return Colour(el.attribute(QStringLiteral("c")).toInt()); // R2: parsed integer converted to an enum
 }
 
+int loop_no_progress(const QDomElement &el)
+{
+    int n = 0;
+    QDomElement child = el.firstChildElement();
+    while (!child.isNull()) {
+        if (child.tagName() == QStringLiteral("skip")) {
+            continue;                                         // R5: back to the loop head without advancing child
+        }
+        n++;
+        child = child.nextSiblingElement();
+    }
+    return n;
+}
+
 }  // namespace qxv_control
